@@ -10,7 +10,7 @@ impl Op for Translate {
     fn apply<G: TooDeeOpsMut<u8>>(&self, g: &mut G) {
         g.translate_with_wrap((self.0, self.1));
     }
-    fn check(&self, old: &Win, new: &Win) {
+    fn check<const B: usize>(&self, old: &Win<B>, new: &Win<B>) {
         let (mc, mr) = (self.0, self.1);
         let (w, h) = (old.cols, old.rows);
         probe_eq(new, |c, r| old.at((c + mc) % w, (r + mr) % h));
@@ -22,7 +22,7 @@ impl Op for FlipRows {
     fn apply<G: TooDeeOpsMut<u8>>(&self, g: &mut G) {
         g.flip_rows();
     }
-    fn check(&self, old: &Win, new: &Win) {
+    fn check<const B: usize>(&self, old: &Win<B>, new: &Win<B>) {
         let h = old.rows;
         probe_eq(new, |c, r| old.at(c, h - 1 - r));
     }
@@ -33,7 +33,7 @@ impl Op for FlipCols {
     fn apply<G: TooDeeOpsMut<u8>>(&self, g: &mut G) {
         g.flip_cols();
     }
-    fn check(&self, old: &Win, new: &Win) {
+    fn check<const B: usize>(&self, old: &Win<B>, new: &Win<B>) {
         let w = old.cols;
         probe_eq(new, |c, r| old.at(w - 1 - c, r));
     }
@@ -42,11 +42,15 @@ impl Op for FlipCols {
 /// translate on a receiver of concrete geometry: kind 0 owned (pc x pr), kind 1/2 a fixed window
 /// (start, end) of a pc x pr parent. The row shift `mr` is concrete (the cycle structure of the row
 /// permutation depends on gcd(rows, rows-mr)); the column shift is symbolic in 0..=cols.
-pub fn translate(kind: u8, pc: usize, pr: usize, sc: usize, sr: usize, ec: usize, er: usize, mr: usize) {
-    let cells = nd::bytes::<16>();
+pub fn translate_b<const B: usize>(kind: u8, pc: usize, pr: usize, sc: usize, sr: usize, ec: usize, er: usize, mr: usize) {
+    let cells = nd::bytes::<B>();
     let gm = geometry(kind, pc, pr, Pick::Fixed((sc, sr), (ec, er)));
     let mc = nd::upto(gm.size.0);
     run(kind, pc, pr, gm, cells, &Translate(mc, mr), false);
+}
+
+pub fn translate(kind: u8, pc: usize, pr: usize, sc: usize, sr: usize, ec: usize, er: usize, mr: usize) {
+    translate_b::<16>(kind, pc, pr, sc, sr, ec, er, mr)
 }
 
 /// mid beyond the size must panic. One coordinate is the offending one:
@@ -70,12 +74,16 @@ pub fn translate_rejected(kind: u8, pc: usize, pr: usize, which: u8) {
 }
 
 /// flips: window symbolic in rows (columns concrete) for views, concrete shape for owned.
-pub fn flip(rows: bool, kind: u8, pc: usize, pr: usize, sc: usize, ec: usize) {
-    let cells = nd::bytes::<16>();
+pub fn flip_b<const B: usize>(rows: bool, kind: u8, pc: usize, pr: usize, sc: usize, ec: usize) {
+    let cells = nd::bytes::<B>();
     let gm = geometry(kind, pc, pr, Pick::Cols(sc, ec));
     if rows {
         run(kind, pc, pr, gm, cells, &FlipRows, false);
     } else {
         run(kind, pc, pr, gm, cells, &FlipCols, false);
     }
+}
+
+pub fn flip(rows: bool, kind: u8, pc: usize, pr: usize, sc: usize, ec: usize) {
+    flip_b::<16>(rows, kind, pc, pr, sc, ec)
 }
